@@ -258,16 +258,39 @@ func compareLog(e expectation, obs []Req, complete bool) *verdict {
 // judge applies the oracle to one run
 func judge(c Case, purls []string, res runResult) *verdict {
 	var exps []expectation
-	allEOS := true
 	for i, st := range c.Streams {
-		e := expectStream(purls[i], st.History)
-		exps = append(exps, e)
-		if e.Out != "eos" {
-			allEOS = false
-		}
+		exps = append(exps, expectStream(purls[i], st.History))
 	}
 	if len(res.Stray) > 0 {
 		return &verdict{Sig: "C11:url:stray-request", What: "request to a URL that no playlist entry resolves to: " + res.Stray[0]}
+	}
+	// whatever was requested must be what the property demands, in order (a rendition may have been
+	// cut short by another one's error: prefix)
+	for i, e := range exps {
+		if v := compareLog(e, res.Logs[i], false); v != nil {
+			return v
+		}
+	}
+	v := judgeOutcome(c, exps, res)
+	if v != nil && len(c.Streams) > 1 && res.Final == "next" {
+		// root cause: a rendition that had delivered everything when ENDLIST appeared reported
+		// "next segment not found" and thereby cut the other renditions short
+		for i, e := range exps {
+			if e.OutTag == "C11:eos:endlist-after-last-segment-fetched" && compareLog(e, res.Logs[i], true) == nil {
+				return &verdict{Sig: e.OutTag + ":outcome=next",
+					What: fmt.Sprintf("rendition %d: %s: the run must not fail, Client.Wait returned next (%s)", i, e.OutWhy, v.What)}
+			}
+		}
+	}
+	return v
+}
+
+func judgeOutcome(c Case, exps []expectation, res runResult) *verdict {
+	allEOS := true
+	for _, e := range exps {
+		if e.Out != "eos" {
+			allEOS = false
+		}
 	}
 	if len(c.Streams) == 1 || allEOS {
 		for i, e := range exps {
@@ -289,11 +312,6 @@ func judge(c Case, purls []string, res runResult) *verdict {
 		return nil
 	}
 	// several streams, at least one must fail: the others may have been cut short
-	for i, e := range exps {
-		if v := compareLog(e, res.Logs[i], false); v != nil {
-			return v
-		}
-	}
 	if res.Final == "eos" {
 		return &verdict{Sig: "C11:eos:premature", What: "Client.Wait returned ErrClientEOS although not every stream reaches the end of an ENDLIST playlist"}
 	}
